@@ -45,7 +45,8 @@ type CheckDef struct {
 	// Race: the check runs in the -race build of the harness.
 	Race bool
 	// HangIsViolation: a case exceeding HangSeconds counts as a violation
-	// (C10 only); otherwise it is inconclusive.
+	// (C10, C08; C06 and C07, whose statements promise that a load returns -
+	// with the index or with an error); otherwise it is inconclusive.
 	HangIsViolation bool
 	HangSeconds     int
 	// MemoryIsViolation: a case that drives the worker's heap past the
@@ -290,9 +291,20 @@ func runWorker(def *CheckDef, tier string, seed uint64, w, nw, startAfter int, g
 			}
 		}
 	}()
+	churn := os.Getenv("VERIF_CHURN") != "0"
+	if churn {
+		startChurn()
+	}
 	for idx := w; idx < n; idx += nw {
 		if idx <= startAfter {
 			continue
+		}
+		// every other case of this worker runs in company (churn.go)
+		if churn && (idx/nw)%2 == 0 {
+			atomic.StoreInt32(&churnActive, 1)
+			ctx.Count("cases_run_with_background_churn", 1)
+		} else {
+			atomic.StoreInt32(&churnActive, 0)
 		}
 		atomic.StoreInt64(&cur, int64(idx))
 		fmt.Fprintf(jf, "case %d\n", idx)
@@ -305,6 +317,11 @@ func runWorker(def *CheckDef, tier string, seed uint64, w, nw, startAfter int, g
 		}
 		atomic.StoreInt64(&ctx.caseStart, 0)
 		ctx.casesDone++
+	}
+	atomic.StoreInt32(&churnActive, 0)
+	ctx.Count("churn_iterations", atomic.LoadInt64(&churnIters))
+	if p := atomic.LoadInt64(&churnPanics); p > 0 {
+		ctx.Count("churn_panics_swallowed", p)
 	}
 	fmt.Fprintf(jf, "done\n")
 	writeResult(nil)
